@@ -219,6 +219,36 @@ def run():
         differ = [int(i) for i in np.where(~((m[0] == m[1]) | (np.isnan(m[0]) & np.isnan(m[1]))))[0]]
         ctx.violation('C15: augmented metric differs with the slice cache on cycles %s (previous cycle non-monotonic)' % differ,
                       {'class': 'augmented_cache_discrepancy_on_ambiguous_previous_cycle' if differ == [2] else 'cache_discrepancy', 'cycles': differ})
+    # metrics are real-valued whatever the dtype of the per-sample vector: mean / std of INTEGER- and BOOL-typed vectors,
+    # with and without the slice cache, against the function applied to each cycle's samples (computed here)
+    nprobe = 0
+    for fam in (1, 2, 3):
+        phf = val[PHASE[fam]]
+        for dt in (np.int64, np.int16, bool, np.float32):
+            vv = (np.arange(len(phf)) * 7 % 5).astype(dt) if dt is not bool else (np.arange(len(phf)) % 3 == 0)
+            for fname, f in (('mean', np.mean), ('std', np.std)):
+                got = []
+                for cache in (True, False):
+                    try:
+                        Cq = emd.cycles.Cycles(phf, use_cache=cache)
+                        Cq.compute_cycle_metric('q', vv, f)
+                        got.append(np.asarray(Cq.metrics['q'], float))
+                        cvq = Cq.cycle_vect[:, 0] if Cq.cycle_vect.ndim == 2 else Cq.cycle_vect
+                    except Exception as e:
+                        got.append(np.array([np.nan]))
+                        cvq = None
+                nprobe += 1
+                if cvq is None:
+                    ctx.violation('C15: compute_cycle_metric(%s of a %s vector) raised (family %d)' % (fname, np.dtype(dt).name, fam), {'class': 'metric_of_typed_vector_raises', 'dtype': np.dtype(dt).name})
+                    continue
+                want = np.array([float(f(vv[cvq == c].astype(float))) for c in range(int(cvq.max()) + 1)])
+                for cache, g in zip((True, False), got):
+                    if g.shape != want.shape or not np.allclose(g, want, rtol=1e-6, atol=1e-9):
+                        ctx.violation('C15: %s of a %s per-sample vector per cycle (family %d, use_cache=%s): container holds %s, the function over each cycle\'s samples gives %s'
+                                      % (fname, np.dtype(dt).name, fam, cache, g.tolist(), want.tolist()),
+                                      {'class': 'metric_of_typed_vector', 'dtype': np.dtype(dt).name, 'func': fname, 'use_cache': cache, 'family': fam})
+                        break
+    ctx.leg('typed-vectors', probes=nprobe)
     ctx.leg('B', histories_replayed=len(items), mismatches=nbad)
     ctx.cov['rule'] = ('ALL histories of %d operations over {compute metric (2 names x 2 vectors x sum/max/len x cycle/augmented), add metric (right / wrong length), compute timings, '
                        'pick subset (11 condition lists: 1-3 conditions, all six comparators, negative / decimal / exponent literal spellings, an empty selection), chain timings, '
